@@ -174,6 +174,12 @@ struct Hist {
     qb: TypeK,
     cap: u16,
     ops: Vec<(Step, Op)>,
+    /// how the `TtlConfig` comes into being: 0 = deserialised as a whole; 1 = the default bounds
+    /// converted (`TtlConfig::from`), then one `with_query_type_ttl_bounds` call per type; 2 = as 1,
+    /// but every type is first given other bounds and then the real ones ("Override the minimum
+    /// and maximum TTL values for a specific query type": the later call decides)
+    #[serde(default)]
+    build: u8,
 }
 
 // ---------------------------------------------------------------------------------------------
@@ -344,8 +350,9 @@ fn hist(tier: Tier) -> impl Strategy<Value = Hist> {
         qtypek(),
         prop_oneof![9 => Just(64u16), 1 => 1u16..4],
         vec((step(), op()), 1..=max_ops),
+        prop_oneof![3 => Just(0u8), 1 => Just(1u8), 1 => Just(2u8)],
     )
-        .prop_map(|(cfg, qa, qb, cap, ops)| Hist { cfg, qa, qb, cap, ops })
+        .prop_map(|(cfg, qa, qb, cap, ops, build)| Hist { cfg, qa, qb, cap, ops, build })
 }
 
 // ---------------------------------------------------------------------------------------------
@@ -673,8 +680,30 @@ fn body(h: &Hist, rec: &mut Rec) -> CaseResult {
     let cfg = &h.cfg;
     // virtual clock first, so that moka's clock origin is virtual time 0 (guard dropped last)
     let _clock = VirtualClock::start(1_700_000_000);
-    let ttl_config: TtlConfig =
-        serde_json::from_value(cfg_json(cfg)).map_err(|e| harness(format!("TtlConfig from JSON {}: {e}", cfg_json(cfg))))?;
+    let ttl_config: TtlConfig = if h.build == 0 {
+        serde_json::from_value(cfg_json(cfg)).map_err(|e| harness(format!("TtlConfig from JSON {}: {e}", cfg_json(cfg))))?
+    } else {
+        // the builder: only the bounds themselves are deserialised (their fields are private)
+        let whole = cfg_json(cfg);
+        let bounds = |v: &serde_json::Value| -> Result<hickory_resolver::TtlBounds, Fail> {
+            serde_json::from_value(v.clone()).map_err(|e| harness(format!("TtlBounds from JSON {v}: {e}")))
+        };
+        let mut tc = TtlConfig::from(bounds(&whole["default"])?);
+        for (code, _) in &cfg.by_type {
+            let k = [TypeK::A, TypeK::AAAA, TypeK::TXT, TypeK::MX, TypeK::NS, TypeK::CNAME, TypeK::SOA].into_iter().find(|t| t.code() == *code).expect("known type code");
+            if h.build == 2 {
+                let decoy = json!({"positive_min_ttl": 7, "positive_max_ttl": 77_777, "negative_min_ttl": 5, "negative_max_ttl": 55_555});
+                tc.with_query_type_ttl_bounds(k.rt(), bounds(&decoy)?);
+            }
+            tc.with_query_type_ttl_bounds(k.rt(), bounds(&whole[k.key()])?);
+        }
+        tc
+    };
+    rec.class(match h.build {
+        0 => "ttl-config:deserialised",
+        1 => "ttl-config:builder",
+        _ => "ttl-config:builder-with-overridden-bounds",
+    });
     let cache = ResponseCache::new(h.cap as u64, ttl_config);
 
     let qtypes = [h.qa, h.qb, h.qa];
@@ -1450,7 +1479,7 @@ pub fn check() -> Option<Check> {
     Some(Check {
         id: "C15",
         level: "exploration",
-        rule: "histories of <=30 (thorough 40) insert/get operations over 3 queries (2 names x 2 types) with non-decreasing nanosecond times (steps 0, sub-second, 1-5 s, large jumps, and jumps to the model's expiry instant +-{0,1ns,0.5s,1s}); results: positive messages with 0-6 records of the queried type / CNAME / other types spread over answer, authority and additional with independent TTLs (0..11 mostly, 3600+-5, 86400+-5, >1 day, 2^31-1), NoRecordsFound built directly (with/without negative_ttl, SOA, authorities, NS+glue) or through DnsError::from_response (SOA ttl/minimum), transient errors (timeout, io, SERVFAIL, REFUSED, busy, no connections, message); TtlConfig built through its serde form with default and 0-3 per-type tables, each bound unset / 0 / 1-9 / 30-3600 / >= 1 day, min<=max enforced, explicit min=max class. Non-trivial = distinct history AND (re-insert of a key whose entry is live, OR a get within 1 s of the model's expiry instant, OR a record whose own type's bounds clamp differently from the query type's bounds); client_clear: <=30 lookups/clears through CachingClient (preserve_intermediates on/off) over a scripted upstream answering with direct answers, alias answers (1-2 CNAMEs + target records in one response), negatives, SERVFAIL, timeouts recursor_expiry: the same clauses through the recursor (recursor/handle.rs shares the response cache): one query is resolved on an honest simulated internet (all zone data TTL 3600, SOA MINIMUM 300), virtual time advances by 0 s .. 3 h (clustered around 300 s and 3600 s) and the query is resolved again; whatever the second resolution returns without a single upstream datagram came from a cache and was stored no later than the end of the first resolution: reported TTLs must be <= 3600 minus the whole seconds in between, nothing may be returned after 3600 s, no negative answer after 300 s, and no TTL is ever above the zone's. Non-trivial = the first resolution asked upstream.",
+        rule: "histories of <=30 (thorough 40) insert/get operations over 3 queries (2 names x 2 types) with non-decreasing nanosecond times (steps 0, sub-second, 1-5 s, large jumps, and jumps to the model's expiry instant +-{0,1ns,0.5s,1s}); results: positive messages with 0-6 records of the queried type / CNAME / other types spread over answer, authority and additional with independent TTLs (0..11 mostly, 3600+-5, 86400+-5, >1 day, 2^31-1), NoRecordsFound built directly (with/without negative_ttl, SOA, authorities, NS+glue) or through DnsError::from_response (SOA ttl/minimum), transient errors (timeout, io, SERVFAIL, REFUSED, busy, no connections, message); TtlConfig built through its serde form (3 in 5), or from the default bounds plus one with_query_type_ttl_bounds call per type (1 in 5), or with every type first given other bounds and then overridden with the real ones (1 in 5), with default and 0-3 per-type tables, each bound unset / 0 / 1-9 / 30-3600 / >= 1 day, min<=max enforced, explicit min=max class. Non-trivial = distinct history AND (re-insert of a key whose entry is live, OR a get within 1 s of the model's expiry instant, OR a record whose own type's bounds clamp differently from the query type's bounds); client_clear: <=30 lookups/clears through CachingClient (preserve_intermediates on/off) over a scripted upstream answering with direct answers, alias answers (1-2 CNAMEs + target records in one response), negatives, SERVFAIL, timeouts recursor_expiry: the same clauses through the recursor (recursor/handle.rs shares the response cache): one query is resolved on an honest simulated internet (all zone data TTL 3600, SOA MINIMUM 300), virtual time advances by 0 s .. 3 h (clustered around 300 s and 3600 s) and the query is resolved again; whatever the second resolution returns without a single upstream datagram came from a cache and was stored no later than the end of the first resolution: reported TTLs must be <= 3600 minus the whole seconds in between, nothing may be returned after 3600 s, no negative answer after 300 s, and no TTL is ever above the zone's. Non-trivial = the first resolution asked upstream.",
         assumptions: vec![
             "virtual clock (interposed clock_gettime) equals the Instant passed to insert/get, as for the real callers which pass Instant::now()",
             "configurations with min > max (after defaults 0 s / 1 day) are outside the domain: the statement's clamp is undefined there (the implementation panics in clamp)",
